@@ -297,6 +297,33 @@ pub fn seed_vault_drained_shorts() -> Vec<Act> {
     ]
 }
 
+/// alice has been credited funding she has not collected yet (a settlement with the oracle on her side) and a third
+/// party then moves the price against her: slightly under-margined (ratio between the liquidation fee and maintenance
+/// in the liquidation-band configuration), with margin left after a liquidation
+pub fn seed_funding_receiver_slightly_under(long: bool) -> Vec<Act> {
+    if long {
+        vec![
+            Act::open("alice", true, 25 * D, 10 * D),
+            Act::Px { price: 18 * D },
+            Act::blk(3900),
+            Act::fund(),
+            Act::open("carol", false, 25 * D, 2 * D),
+            Act::blk(1200),
+            px_at_spot(),
+        ]
+    } else {
+        vec![
+            Act::open("alice", false, 20 * D, 10 * D),
+            Act::Px { price: 6 * D },
+            Act::blk(3900),
+            Act::fund(),
+            Act::open("carol", true, 12 * D, 2 * D),
+            Act::blk(1200),
+            px_at_spot(),
+        ]
+    }
+}
+
 /// everything in one block: carol pumps, alice and bob open long at the top, carol closes; alice and
 /// bob are far below maintenance on spot and on TWAP within the same block
 pub fn seed_same_block_cascade() -> Vec<Act> {
